@@ -4,7 +4,9 @@ Proof: Properties/C05.v (walk iterators against the RFC 3416 reference agent ove
 Correspondence / oracle: the real SnmpSession (getnext, getbulk with a max_repetitions x agent-cap grid, fetch;
 v1, v2c, v3; sync and async) against an independent MIB-serving agent (harness/py/scen.py: mib_reply);
 list(walk) must equal the entries strictly below the base, in order, each once."""
-from lib import gen, vf
+import os
+
+from lib import codec, gen, vf
 import ber
 
 
@@ -26,6 +28,14 @@ def gen_mib(rng):
 
 def subtree(ents, base):
     return [e for e in ents if len(e[0]) > len(base) and e[0][:len(base)] == base]
+
+
+def default_max_rep(mode):
+    """SnmpSession(max_repetitions=<default>) as the source says now (an input of Model.Walk.fetch_walk)."""
+    import re
+    src = open(os.path.join(vf.REPO, "src/gufo/snmp/%s_client/client.py" % ("sync" if mode == "sync" else "async"))).read()
+    m = re.search(r"max_repetitions:\s*int\s*=\s*(\d+)", src)
+    return int(m.group(1)) if m else 20
 
 
 def main(argv):
@@ -65,8 +75,28 @@ def main(argv):
                 scs.append(sc)
                 exps.append(ex)
     ok3, log3, v3exe = vf.ocaml_build("v3", "v3_model", "v3_driver")
+    okc, logc, cexe = vf.ocaml_build("codec", "codec_model", "codec_driver")
+    if not (ok3 and okc):
+        c.errors.append("building the extracted models failed: " + (log3 + logc)[-1500:])
+        return c.finish("n/a")
     res, log = vf.run_api_worker("C05", {"scenarios": scs, "model_exe": v3exe}, timeout=1500)
     n = 0
+    dis = 0
+    emap = codec.errmap()
+    # the same walks in Model.Walk (the functions the C05 theorems are about), fed with the replies the agent really gave
+    mlines, mkeys = [], {}
+    if res is not None:
+        for si, (sc, rec) in enumerate(zip(scs, res["records"])):
+            for ti, (st, out) in enumerate(zip(sc["steps"], rec.get("steps", []))):
+                xs = out.get("exchanges", [])
+                if not xs or any(not x.get("reply_spec") for x in xs):
+                    continue
+                pdus = [ber.pdu(0xA2, 1, x["reply_spec"].get("es", 0), x["reply_spec"].get("ei", 0), [bytes.fromhex(x["reply_spec"]["vbs"])]).hex() for x in xs]
+                kind = {"getnext": "next", "getbulk": "bulk:%s" % (st["args"][1] if len(st["args"]) > 1 else "-"),
+                        "fetch": "fetch:%s:1" % sc["version"]}[st["op"]]
+                mkeys[(si, ti)] = len(mlines)
+                mlines.append("pywalk %s %s %d 600 %s" % (kind, st["args"][0].encode().hex(), default_max_rep(sc["mode"]), " ".join(pdus)))
+    mwalks = vf.run_lines(cexe, mlines) if mlines else []
     if res is None:
         c.errors.append("API worker failed: " + log[-1500:])
     else:
@@ -74,8 +104,20 @@ def main(argv):
             if "driver_error" in rec:
                 c.errors.append("API driver error: " + rec["driver_error"])
                 continue
-            for st, (kind, base, ents, mib), out in zip(sc["steps"], ex, rec["steps"]):
+            for ti, (st, (kind, base, ents, mib), out) in enumerate(zip(sc["steps"], ex, rec["steps"])):
                 n += 1
+                mk = mkeys.get((scs.index(sc), ti))
+                if mk is not None and out["kind"] == "ITER":
+                    mw = mwalks[mk]
+                    i_req = [ber.oid_content(((q.get("pdu") or {}).get("oids") or [[0, 0]])[0]).hex() for q in out.get("requests", [])]
+                    impl = "OK items=%s req=%s end=%s" % (";".join(out["items"]) or "-", ",".join(i_req) or "-", out["ending"])
+                    if not codec.same(mw, impl, emap):
+                        dis += 1
+                        if dis <= 3:
+                            c.log("Model.Walk and the %s/%s %s iterator differ:\n     model %s\n     impl  %s" % (sc["version"], sc["mode"], kind, mw[:300], impl[:300]))
+                        if not any(b.startswith("correspondence") for b in c.broken):
+                            c.broken = list(c.broken) + ["correspondence (Model.Walk vs %s/%s %s%s): model `%s` impl `%s`"
+                                                         % (sc["version"], sc["mode"], kind, st["args"], mw[:160], impl[:160])]
                 want = subtree(ents, base)
                 c.count(("walk", sc["version"], sc["mode"], kind, tuple(base), len(ents), mib["cap"], mib["pad"], str(st["args"])), len(want) >= 2)
                 if n <= 3:
@@ -102,7 +144,7 @@ def main(argv):
              "before and after the subtree) x bases (subtree, leaf, absent, last subtree, whole tree) x {getnext, getbulk max_repetitions "
              "1..50 x agent cap 1..1000 x endOfMibView padding 0..3, fetch} x {v1, v2c, v3 noAuth, v3 MD5+DES} x {sync, async}; "
              "non-trivial = the subtree has at least 2 entries" % (n, n_mibs),
-        extra={"walks": n, "traces_validated_against_impl": n})
+        extra={"walks": n, "traces_validated_against_impl": n, "walks_replayed_in_Model_Walk": len(mlines), "disagreements": dis})
 
 
 def api_main(g, job):
